@@ -94,6 +94,10 @@ def scenarios(rnd, quick):
         dict(pool="mulpmap", nw=2, cpu=2, pipe=1, calls=[dict(n=4)]),
         dict(pool="mulpmap", nw=1, cpu=1, pipe=1, calls=[dict(n=3), dict(n=2)]),
         dict(pool="functormap", nw=2, pipe=1, calls=[dict(n=4, chunk=1), dict(n=2, chunk=1)]),
+        # more chunks than work-queue slots + workers, results as large as the pipe
+        dict(pool="functormap", nw=1, pipe=1, calls=[dict(n=4, chunk=1)]),
+        dict(pool="functormap", nw=2, pipe=1, calls=[dict(n=7, chunk=1)]),
+        dict(pool="mulpmap", nw=2, cpu=1, pipe=1, calls=[dict(n=6)]),
     ]
     for _ in range(3 if quick else 20):
         kind = rnd.choice(["functormap", "mulpmap"])
@@ -130,16 +134,21 @@ def real_leg(ctx, quick, rnd):
             n[0] += 1
             os.write(wfd, (json.dumps([n[0], kw]) + "\n").encode())
         ev(op="cfg", **JUDGE)
+        fun, unpack = f, (lambda y: y)
+        if scen.get("big"):
+            # results larger than the buffer of an OS pipe (64 KiB): a put into a multiprocessing queue cannot complete, and a
+            # process cannot finish, before the consumer reads
+            fun, unpack = (lambda x: (f(x), "p" * 300000)), (lambda y: y[0] if isinstance(y, tuple) and len(y) == 2 else y)
         try:
             if scen["pool"] == "functormap":
-                with pools.FunctorMap(f, scen["nw"]) as fm:
+                with pools.FunctorMap(fun, scen["nw"]) as fm:
                     for ci, call in enumerate(scen["calls"]):
                         c = ci + 1
                         ev(op="call_begin", c=c, n=call["n"], chunk=call["chunk"], ord=1)
                         try:
                             gen_obj = fm(iter([value(c, i) for i in range(call["n"])]), call["chunk"])
                             for _, y in (zip(range(call["n"]), gen_obj) if call.get("zipped") else enumerate(gen_obj)):
-                                cc, ii = decode(y)
+                                cc, ii = decode(unpack(y))
                                 ev(op="yield", c=cc, i=ii)
                             gen_obj.close()
                         except Exception as e:
@@ -151,12 +160,12 @@ def real_leg(ctx, quick, rnd):
                     c = ci + 1
                     ev(op="call_begin", c=c, n=call["n"], chunk=1, ord=1)
                     try:
-                        res = maps.mul_p_map(f, [value(c, i) for i in range(call["n"])], scen["nw"])
+                        res = maps.mul_p_map(fun, [value(c, i) for i in range(call["n"])], scen["nw"])
                     except Exception as e:
                         ev(op="consumer_exc", what=repr(e)[:200])
                         raise realrun.ConsumerExc()
                     for y in res:
-                        cc, ii = decode(y)
+                        cc, ii = decode(unpack(y))
                         ev(op="yield", c=cc, i=ii)
                     ev(op="call_end")
         except realrun.ConsumerExc:
@@ -165,6 +174,8 @@ def real_leg(ctx, quick, rnd):
     scens = [dict(pool="functormap", nw=2, calls=[dict(n=7, chunk=2), dict(n=0, chunk=1), dict(n=3, chunk=1)]),
              dict(pool="functormap", nw=2, calls=[dict(n=4, chunk=1, zipped=True), dict(n=3, chunk=2, zipped=True), dict(n=3, chunk=1)]),
              dict(pool="functormap", nw=3, calls=[dict(n=2, chunk=5)]),
+             dict(pool="functormap", nw=2, big=True, calls=[dict(n=9, chunk=1), dict(n=3, chunk=2)]),
+             dict(pool="mulpmap", nw=2, big=True, calls=[dict(n=7), dict(n=2)]),
              dict(pool="mulpmap", nw=2, calls=[dict(n=5), dict(n=0), dict(n=3)]),
              dict(pool="mulpmap", nw=3, calls=[dict(n=1)])]
     for _ in range(0 if quick else 12):
